@@ -601,6 +601,35 @@ def rule_d11(repo):
                 '%s:%d' % (ITEMS, recs[0].lineno))
     return res
 
+def rule_d12(repo):
+    """The test "the constant being defined does not occur on the right" compares the *names* of the constants of the right-hand side with
+    the name of the constant.  Inside terms a constant carries its general name (`plus`), also when the item defines one instance of
+    an overloaded constant, whose expanded name (`nat_plus`, self.cname) is only a key of the theory.  The name compared with must be
+    the one the left-hand head is built with in the same function (`Const(self.name, self.type)`); compared with the expanded name the
+    test can never match for an overloaded constant and is switched off exactly there: foo (x::nat) = Suc (foo x) is accepted."""
+    res = RuleResult('C11.D12', 'the self-occurrence test of a definition compares with the name constants carry inside terms', floor=1)
+    f = repo.func(ITEMS, 'Definition.parse')
+    heads = [c for c in ast.walk(f.node) if isinstance(c, ast.Call) and call_name(c) == 'Const' and len(c.args) == 2 and path_of(c.args[1]) == 'self.type']
+    need(heads, 'Definition.parse: the head constant Const(<name>, self.type) not found')
+    head_name = src(heads[0].args[0])
+    tests = []
+    for n in ast.walk(f.node):
+        cp = compare_parts(n) if isinstance(n, ast.Compare) else None
+        if cp and cp[0] in (ast.Eq, ast.NotEq):
+            for x, y in ((cp[1], cp[2]), (cp[2], cp[1])):
+                if isinstance(x, ast.Attribute) and x.attr == 'name' and isinstance(x.value, ast.Name) and (path_of(y) or '').startswith('self.'):
+                    # x is an element of get_consts() of the right-hand side?
+                    tests.append((n, y))
+    need(tests, 'Definition.parse: no comparison of a constant\'s name with a name of the item found')
+    for i, (n, y) in enumerate(tests):
+        ok = src(y) == head_name
+        res.add('%s :: Definition.parse :: name-compared#%d' % (ITEMS, i + 1), ok,
+                'compared with %s, the name the head constant is built with' % head_name if ok else
+                'line %d compares the names of the constants on the right with `%s`, while constants are built with `%s`: for an instance of an overloaded '
+                'constant the two differ, the test never matches, and foo (x::nat) = Suc (foo x) is accepted as a definition' % (n.lineno, src(y), head_name),
+                '%s:%d' % (ITEMS, n.lineno))
+    return res
+
 
 def rules(repo):
-    return [rule_d1(repo), rule_d2(repo), rule_d3(repo), rule_d4(repo), rule_d5(repo), rule_d6(repo), rule_d7(repo), rule_d8(repo), rule_d9(repo), rule_d10(repo), rule_d11(repo)]
+    return [rule_d1(repo), rule_d2(repo), rule_d3(repo), rule_d4(repo), rule_d5(repo), rule_d6(repo), rule_d7(repo), rule_d8(repo), rule_d9(repo), rule_d10(repo), rule_d11(repo), rule_d12(repo)]
